@@ -109,6 +109,23 @@ SPECS = {
              "args": [("spot", "R"), ("mean", "R")], "ret": "R", "subst": {"self.model.spot": "spot", "self.model.mean(maturity)": "mean"}},
             {"kind": "assign_rhs", "file": FFT, "py": "FFTPricer.put", "target": "df", "coq": "fft_df",
              "args": [("r", "R"), ("maturity", "R")], "ret": "R", "attrs": {"self.r": "r"}},
+            # ---- wave 5: butterfly (COS and closed form), digital legs, the df multiplier of the pricing sum, the truncation window
+            {"kind": "return_rhs", "py": "COSPricer.butterfly", "coq": "cos_butterfly", "args": [("c1", "R"), ("c2", "R"), ("c3", "R")], "ret": "R",
+             "subst": {"calls[0]": "c1", "calls[1]": "c2", "calls[2]": "c3"}},
+            {"kind": "return_rhs", "file": BS, "py": "CFBlackScholes.butterfly", "coq": "bs_butterfly", "args": [("c1", "R"), ("c2", "R"), ("c3", "R")],
+             "ret": "R", "subst": {"self.call(strike1, maturity)": "c1", "self.call(strike2, maturity)": "c2", "self.call(strike3, maturity)": "c3"}},
+            {"kind": "return_rhs", "py": "COSPricer._pricing_formula", "coq": "cos_pricing_formula", "args": [("df", "R"), ("sum_re", "R")], "ret": "R",
+             "subst": {"sum_term.real": "sum_re"}},
+            {"kind": "return_rhs", "py": "COSPricer.digital", "coq": "cos_digital", "args": [("pf", "R")], "ret": "R",
+             "subst": {"self._pricing_formula(np.log(spot / strikes), time, a, b, vk)": "pf"}},
+            {"kind": "assign_rhs", "py": "COSPricer._interval_a_b", "target": "delta", "coq": "cos_window_delta",
+             "args": [("l", "R"), ("c2", "R"), ("c4", "R"), ("c6", "R")], "ret": "R", "attrs": {"self.l": "l"}, "calls": {"np.sqrt": "sqrt"}},
+            {"kind": "return_rhs", "py": "COSPricer._interval_a_b", "coq": "cos_window", "args": [("c1", "R"), ("delta", "R")], "ret": "(R * R)"},
+            {"file": BS, "py": "CFBlackScholes.digital", "coq": "bs_digital", "pyargs": ["strike", "maturity"],
+             "args": [("r", "R"), ("d", "R"), ("spot", "R"), ("sigma", "R"), ("strike", "R"), ("maturity", "R")], "ret": "R",
+             "attrs": {"self.bs_model.r": "r", "self.bs_model.d": "d", "self.bs_model.spot": "spot", "self.bs_model.parameters.sigma": "sigma"},
+             "consts": {"CFBlackScholes.eps": "(IZR 1 / IZR 100000000)"}, "calls": {"norm.cdf": "Phi"},
+             "subst": {"np.where(fwd > np.asarray(strike), 1, 0)": "(if Rltb strike fwd then IZR 1 else IZR 0)"}},
             {"file": VG, "py": "VGParameters.__init__", "coq": "vgR_c", "pyargs": ["sigma", "nu", "theta"], "args": VG_ARGS, "ret": "R",
              "attr_tail": "self._c"},
             {"file": VG, "py": "VGParameters.__init__", "coq": "vgR_lambda_p", "pyargs": ["sigma", "nu", "theta"], "args": VG_ARGS, "ret": "R",
